@@ -575,7 +575,9 @@ def check_case(case, max_unknown=1):
                     fails.append({"clause": "dict-semantics-read", "step": step, "view": v, "keys": [],
                                   "expected": _canon_items(sorted(base.items(), key=repr)), "observed": incoherent[:6]})
 
-    read_all(-1, None)
+    lazy = bool(case.get("lazy"))
+    if not lazy:
+        read_all(-1, None)
     for step, cmd in enumerate(case["cmds"]):
         if unknown[0] >= max_unknown:
             break
@@ -594,7 +596,10 @@ def check_case(case, max_unknown=1):
                 unknown[0] += 1
             fails.append({"clause": "dict-semantics-result", "step": step, "view": cmd.get("view"),
                           "keys": [cmd.get("k")], "expected": repr(exp), "observed": repr(got)})
-        read_all(step, cmd["view"] if cmd["t"] == "op" else None)
+        if not lazy:
+            read_all(step, cmd["view"] if cmd["t"] == "op" else None)
+    if lazy and unknown[0] < max_unknown:
+        read_all(len(case["cmds"]) - 1, None)
     return fails
 
 
@@ -931,6 +936,16 @@ class C17(Property):
             {"t": "with_props", "p": 1, "pairs": [["a", 3], ["c", 4]], "split": 1, "form": "mapping"},
             {"t": "with_props", "p": 2, "pairs": [["d", 5]], "split": 0, "form": "none"},
             {"t": "with_props", "p": 0, "pairs": [["e", 6], ["e", 7], ["f", 8]], "split": 3, "form": "iter"}]})
+        # seeded mutation C17 base-frame-alias-initial: the owner's frame is created by a WRITE (nothing read it
+        # before), then the same Properties object is handed to a second class, which is read only at the end
+        out.append({"rtype": "String", "root": "using", "init": [["s", 1]], "lazy": True, "cmds": [
+            {"t": "op", "view": ["c", 0], "op": "setitem", "k": "w", "v": 9},
+            {"t": "op", "view": ["c", 0], "op": "delitem", "k": "s"},
+            {"t": "using_shared", "p": 0, "owner": 0, "init": [["s", 1]]},
+            {"t": "new", "c": 1},
+            {"t": "using_props", "p": 0, "init": [["q", 2]], "wrap": True},
+            {"t": "op", "view": ["c", 2], "op": "clear"},
+            {"t": "using_shared", "p": 2, "owner": 2, "init": [["q", 2]]}]})
         # seeded mutation C17 view-frame-chain-cache: a held view object of the lowest class (and of an instance)
         # is read, then an intermediate class that was never written gets its first write / deletion
         out.append({"rtype": "String", "root": "using", "init": [["k", 1]], "cmds": [
@@ -960,19 +975,39 @@ class C17(Property):
 
     def generate(self, rng, n, tier):
         for i in range(n):
-            r = rng.random()
-            if r < 0.04:
-                yield gen_case(rng, tier, shared=0.5)          # one Properties object given to several classes
-            elif r < 0.08:
-                yield gen_case(rng, tier, shared=0.5, mi=0.6)  # … also below multiple-inheritance classes
-            elif r < 0.2:
-                yield gen_case(rng, tier, mi=0.6)
-            elif r < 0.3:
-                yield gen_case(rng, tier, max_cmds=14)
-            else:
-                yield gen_case(rng, tier)
+            c = self._gen_one(rng, tier)
+            # "lazy" histories: nothing is read but what the commands read, plus one snapshot at the end, so that
+            # class frames are first touched by whatever the history does first (a write, a deletion, a read
+            # through a subclass) instead of by the observer
+            if rng.random() < (0.5 if any(x["t"] == "using_shared" for x in c["cmds"]) else 0.25):
+                c["lazy"] = True
+            yield c
+
+    def _gen_one(self, rng, tier):
+        r = rng.random()
+        if r < 0.06:
+            return gen_case(rng, tier, shared=0.5)          # one Properties object given to several classes
+        elif r < 0.10:
+            return gen_case(rng, tier, shared=0.5, mi=0.6)  # … also below multiple-inheritance classes
+        elif r < 0.2:
+            return gen_case(rng, tier, mi=0.6)
+        elif r < 0.3:
+            return gen_case(rng, tier, max_cmds=14)
+        return gen_case(rng, tier)
 
     def run_impl(self, case):
+        if case.get("lazy"):
+            # nothing is read except what the commands themselves read, and one snapshot at the very end: the
+            # eager snapshot after every command materialises every class frame through the READ path, which
+            # hides what happens when a frame is first created by a WRITE (seeded C17-base-frame-alias-initial)
+            real = Real(case)
+            results = []
+            for cmd in case["cmds"]:
+                res = real.do(cmd)
+                results.append(_canon_result(res))
+                if cmd["t"] != "op" and res[0] == "err":
+                    return {"_lazy": True, "results": results, "final": None}
+            return {"_lazy": True, "results": results, "final": real.snapshot()}
         real = Real(case)
         snap = real.snapshot()
         start = snap
@@ -988,6 +1023,38 @@ class C17(Property):
             steps.append({"r": _canon_result(res), "d": delta})
             snap = new
         return {"start": start, "steps": steps}
+
+    def compare(self, impl_obs, model_obs):
+        if not impl_obs.get("_lazy"):
+            return Property.compare(self, impl_obs, model_obs)
+        if isinstance(model_obs, dict) and "driver_error" in model_obs:
+            return "driver_error: %s" % model_obs["driver_error"]
+        # the model reports the start snapshot and per-step deltas; fold them into results + the final snapshot
+        from harness.core import canon
+        steps = model_obs.get("steps", [])
+        results = [s_["r"] for s_ in steps]
+        if canon(results) != canon(impl_obs["results"]):
+            return "lazy results: impl=%s model=%s" % (canon(impl_obs["results"])[:300], canon(results)[:300])
+        if impl_obs["final"] is not None:
+            cur = {}
+            order = []
+            for v, items in model_obs.get("start", []):
+                cur[tuple(v)] = items
+                order.append(tuple(v))
+            for s_ in steps:
+                for v, items in s_["d"]:
+                    if tuple(v) not in cur:
+                        order.append(tuple(v))
+                    cur[tuple(v)] = items
+            final = {tuple(v): items for v, items in impl_obs["final"]}
+            if set(final) != set(cur):
+                return "lazy final: views differ impl=%s model=%s" % (sorted(final), sorted(cur))
+            for v in final:
+                if canon(final[v]) != canon(cur[v]):
+                    return "lazy final view %r: impl=%s model=%s" % (v, canon(final[v])[:300], canon(cur[v])[:300])
+        if model_obs.get("spec_agrees") is False:
+            return "model A and spec B disagree inside Lean (spec_agrees=false)"
+        return None
 
     def oracle(self, case):
         return check_case(case)
@@ -1014,6 +1081,7 @@ class C17(Property):
         t = ["cmds=%d" % (len(cmds) // 10 * 10), "root=%s" % case["root"]]
         g = hist_guard(case)
         t.append("histGuard=%s" % ("holds" if g is None else "fails:" + g))
+        t.append("observer=%s" % ("lazy" if case.get("lazy") else "eager"))
         ncls = 1 + sum(1 for c in cmds if c["t"] in CLASS_CMDS)
         ninst = sum(1 for c in cmds if c["t"] in INST_CMDS)
         t += ["classes=%d" % ncls, "instances=%d" % ninst]
@@ -1066,6 +1134,10 @@ class C17(Property):
                         yield c
         if case["rtype"] != "String":
             yield dict(copy.deepcopy(case), rtype="String")
+        if case.get("lazy"):
+            c = copy.deepcopy(case)
+            del c["lazy"]
+            yield c
 
 
 def _shared_inits_consistent(case):
